@@ -1273,6 +1273,8 @@ class Evaluator:
         if name == "hasattr" and len(args) == 2 and isinstance(args[1], Const):
             if isinstance(a0, Obj):
                 nm = args[1].value
+                if nm in getattr(a0, "absent", ()):
+                    return Const(False)
                 if nm in a0.attrs or a0.cls.resolve(nm) is not None or a0.cls.class_attr(nm) is not None:
                     return Const(True)
                 if self.p.attr_kinds(a0.cls).get(nm):
